@@ -34,8 +34,8 @@ func (P *projPoint) getXY() (x, y *mod.Int) {
 }
 
 func (P *projPoint) String() string {
-	P.normalize()
-	return P.c.pointString(&P.X, &P.Y)
+	Q := P.normalized()
+	return P.c.pointString(&Q.X, &Q.Y)
 }
 
 func (P *projPoint) MarshalSize() int {
@@ -43,8 +43,8 @@ func (P *projPoint) MarshalSize() int {
 }
 
 func (P *projPoint) MarshalBinary() ([]byte, error) {
-	P.normalize()
-	return P.c.encodePoint(&P.X, &P.Y), nil
+	Q := P.normalized()
+	return P.c.encodePoint(&Q.X, &Q.Y), nil
 }
 
 func (P *projPoint) UnmarshalBinary(b []byte) error {
@@ -114,6 +114,15 @@ func (P *projPoint) normalize() {
 	P.Z.V.SetInt64(1)
 }
 
+// normalized returns a normalized copy of P, leaving P untouched, so that
+// read-only methods do not write to a point that may be shared.
+func (P *projPoint) normalized() *projPoint {
+	var Q projPoint
+	Q.Set(P)
+	Q.normalize()
+	return &Q
+}
+
 func (P *projPoint) Embed(data []byte, rand cipher.Stream) kyber.Point {
 	P.c.embed(P, data, rand)
 	return P
@@ -125,8 +134,8 @@ func (P *projPoint) Pick(rand cipher.Stream) kyber.Point {
 
 // Extract embedded data from a point group element
 func (P *projPoint) Data() ([]byte, error) {
-	P.normalize()
-	return P.c.data(&P.X, &P.Y)
+	Q := P.normalized()
+	return P.c.data(&Q.X, &Q.Y)
 }
 
 // Add two points using optimized projective coordinate addition formulas.
